@@ -9,27 +9,85 @@ BINARIES = {
     "hx": {"go": GO, "pkg": "./hx/", "flags": [], "env": {"GOTOOLCHAIN": "auto"}},
 }
 
-PROPS = {
-    "C03": {
-        "title": "No success without both parties",
-        "level": "exploration",
-        "engine": "fsmx",
-        "technique": "model-based stateful property testing (rapid) against a two-facts lifecycle reference model plus per-event frame conditions",
-        "design_ref": "DESIGN.md section 3 C03",
-        "runs": [
-            {"bin": "hx", "test": "TestC03_Fsmx", "quick": 1500, "thorough": 48000, "shards_thorough": 16},
-        ],
-        "assumptions": [
-            "histories are role consistent (Open only as first event; initiator and responder alphabets kept apart), as produced by the manager",
-            "lifecycle events are not raced against the asynchronous CleanupComplete; every ending is settled before the next event",
-        ],
-        "level_text": "generated-history search: every applied event is checked against a reference model written from the statement (two completion facts and the responder's last word) and against frame conditions; not exhaustive",
-        "level_note": "trusts go-statemachine's delivery of notifications in order (used to observe applied events) and rapid's generators",
-    },
-}
+PROPS = {}
+
+
+def prop(pid, title, level, engine, technique, runs, assumptions, level_text, level_note, **kw):
+    d = {"title": title, "level": level, "engine": engine, "technique": technique, "design_ref": "DESIGN.md section 3 " + pid,
+         "runs": runs, "assumptions": assumptions, "level_text": level_text, "level_note": level_note}
+    d.update(kw)
+    PROPS[pid] = d
+
+
+def hx(test, quick, thorough, shards=16, **kw):
+    d = {"bin": "hx", "test": test, "quick": quick, "thorough": thorough, "shards_thorough": shards}
+    d.update(kw)
+    return d
+
+
+TRUST = "trusts go-statemachine's in-order delivery of notifications (used to observe which events were applied), the recording doubles of the harness and rapid's generators/shrinker"
+
+prop("C02", "Terminal statuses are final", "exploration", "fsmx",
+     "stateful property testing (rapid): before/after equality of all accessors, raw persisted bytes and publication count after every generated stimulus on a terminated channel; plus one complete enumeration of terminal status x event method x reopen",
+     [hx("TestC02_Fsmx", 800, 32000), hx("TestC02_FsmxTable", 2, 4, shards=1)],
+     ["side effects outside the channel record (a cancel message, a transport close on the id) are not part of the compared state"],
+     "generated-stimulus search over terminated channels; the finite table (3 terminal statuses x 2 roles x 28 event methods x {same process, reopened}) is enumerated completely, everything else is sampled",
+     TRUST, exhaustive_note="TestC02_FsmxTable enumerates terminal status x role x every public event method x {same process, after reopen} completely")
+
+prop("C03", "No success without both parties", "exploration", "fsmx",
+     "model-based stateful property testing (rapid) against a two-facts lifecycle reference model plus per-event frame conditions",
+     [hx("TestC03_Fsmx", 1500, 48000)],
+     ["histories are role consistent (Open only as first event; initiator and responder alphabets kept apart), as produced by the manager",
+      "lifecycle events are not raced against the asynchronous CleanupComplete; every ending is settled before the next event"],
+     "generated-history search: every applied event is checked against a reference model written from the statement (two completion facts and the responder's last word) and against frame conditions; not exhaustive",
+     TRUST)
+
+prop("C06", "Durable and prefix-consistent across crashes", "fault_enumeration", "fsmx",
+     "stateful property testing (rapid) with crash-point enumeration: every datastore write boundary of each generated history is materialised and reopened, decoded state compared with the publication-log snapshot that was current",
+     [hx("TestC06_Fsmx", 150, 4000)],
+     ["crash model: the process stops between two datastore writes; a Put / Batch.Commit is atomic (torn writes inside the datastore are out of scope)",
+      "messages and type identifiers are kept <= 4096 bytes (the generated codec caps strings at 8192)"],
+     "within each generated history the crash points are enumerated (thorough: all write boundaries; quick: all when <= 40, else 40 including first and last); histories themselves are sampled",
+     TRUST)
+
+prop("C07", "Transfer accounting counts every block position once", "exploration", "fsmx",
+     "model-based property testing (rapid): run-structured block-report sequences with replays, duplicates and reopen against a reference accumulator; arbitrary triples for monotonicity",
+     [hx("TestC07_Fsmx", 800, 32000), hx("TestC07_FsmxArbitrary", 600, 16000)],
+     ["equality with the sum over distinct positions is asserted for run-structured input in a transferring status only (DESIGN 6.4)"],
+     "generated report sequences against a reference accumulator; sampled, not exhaustive",
+     TRUST)
+
+prop("C08", "Data limits stop the transfer at the limit", "exploration", "fsmx",
+     "model-based property testing (rapid): boundary-biased limit schedules against the reference rule 'pause iff limit != 0, the report advanced the total and total >= limit'",
+     [hx("TestC08_Fsmx", 800, 32000)],
+     ["'no further payload progresses while paused' is asserted on the control flow (pause signal / pause call / nothing resumed), not on bytes in flight inside graphsync"],
+     "generated limit schedules with boundary bias (total == limit reached in ~1/6 of the cases); sampled",
+     TRUST)
+
+prop("C09", "Cleanup exactly once per ending; closing never hangs", "exploration", "fsmx",
+     "stateful property testing (rapid) with racing injections: cleanup-call counter per ending against the publication log, settle-without-input watchdog, crash-restart in cleanup statuses",
+     [hx("TestC09_Fsmx", 500, 16000)],
+     ["exactly-once is asserted when no event is applied during the cleanup window; with k racing events the bound is 1..1+k (DESIGN 6.1)",
+      "bounded liveness: 'settles' / 'returns' use a 20 s watchdog against microsecond latencies"],
+     "generated endings from every reachable status with and without racing events; schedules of the race are sampled by the Go scheduler",
+     TRUST)
+
+prop("C11", "Pause state per party", "exploration", "fsmx",
+     "model-based stateful property testing (rapid) against a two-flag reference model updated by applied events only; ignored actions must leave accessors and bytes identical",
+     [hx("TestC11_Fsmx", 1500, 48000)],
+     [],
+     "generated interleavings of the four pause/resume actions and limit pauses in every reachable status, both roles; sampled",
+     TRUST)
+
+prop("C19", "Channel state views are total and self-consistent", "exploration", "fsmx",
+     "property testing (rapid): total accessor probe under recover and cross-view consistency on every state the explorers obtain, append-only log checks",
+     [hx("TestC19_Fsmx", 800, 32000)],
+     [],
+     "every state produced by generated histories is probed; reachable states are sampled",
+     TRUST)
 
 ENGINES = [
-    {"name": "fsmx", "path": "harness/hx (fsmx_*_test.go)", "serves_properties": ["C03"], "kind_free_text": "rapid state-machine tests driving channels.Channels over a recording datastore and environment"},
+    {"name": "fsmx", "path": "harness/hx (fsmx_*_test.go)", "serves_properties": ["C02", "C03", "C06", "C07", "C08", "C09", "C11", "C19"], "kind_free_text": "rapid state-machine tests driving channels.Channels over a recording datastore and environment"},
 ]
 
 HOOK_COMMITS = []
